@@ -1,17 +1,39 @@
 """C20 - UnionFind and FenwickTree behave like their reference models.
 
-Tie to /repo: random operation histories are run on solvor.utils.data_structures (working tree) and the
+Tie to /repo: operation histories are run on solvor.utils.data_structures (working tree) and the
 same histories are evaluated by the Gallina models SV.C20.UF / SV.C20.Fenwick inside coqc (vm_compute);
-outputs must be equal op by op.  Independently, a naive Python reference (labels array / plain list)
-judges the implementation's outputs against the property itself.
+outputs must be equal op by op.  Independently, a naive Python reference (labels array / plain list of
+exact rationals) judges the implementation's outputs against the property itself.
+
+Generator families (round-2 hardening, HARDENING.md classes S M O A I):
+  UnionFind   random   small random histories (sizes 1..12, ..40 thorough)
+              balanced pairwise merges of equal blocks THROUGH ROOTS (n = 16/32/64/128 -> trees of height 4..7 before any
+                       path compression), then reads at the deepest elements, further unions, reads again
+              deep     adversarial: only roots of equal rank are united (roots known from a naive shadow forest), random n
+              chain    n up to 2000, chain / star / shuffled-chain unions in every orientation, answers from the label array
+  FenwickTree random   small ints
+              mag      exact ints and integer-valued floats at 2^31 .. 2^53, huge next to tiny (2^44 + 1), negatives, zeros,
+                       cancelling pairs; total magnitude <= 2^53 so EVERY partial sum is exact in int and in float arithmetic
+              dyadic   the same scaled by 2^e (huge + tiny multiples of one power of two; every partial sum exactly representable)
+              tol      genuinely inexact float data (0.1, 1e-7 next to 1e6, ints above 2^53): judged by the a-priori bound of
+                       recursive float summation only (the property's "exactly" cannot hold in floats there)
+              sizes 1 2 3 17 64 65 1000; index corners 0, n-1, range(l,l), range(0,n-1), delta 0; repeated identical queries;
+              constructor given list / tuple / range / generator (judged only if accepted); the caller's list is compared after
+              construction and after updates, then mutated by the caller: answers must not change; a second live instance
+              of each class receives other operations in between (no shared state).
 """
+import math
+from fractions import Fraction
+
 from harness.core import Ctx, cnat, cz, cbool, clist, guarded
 
 ID = "C20"
 ANCHORS = ["solvor/utils/data_structures.py"]
 
+COQ_MAX_N = 128  # histories over more elements are judged by the Python reference only (vm_compute cost, nat literals)
 
-# ---------------------------------------------------------------- generators
+
+# ================================================================ UnionFind generators
 def gen_uf(rng, big=False):
     n = rng.choice([1, 2, 3, 4, 5, 6, 8, 12] + ([20, 40] if big else []))
     k = rng.randint(1, 3 * n + 4)
@@ -37,6 +59,181 @@ def gen_uf(rng, big=False):
     return n, ops
 
 
+class _Shadow:
+    """Naive forest used by the GENERATORS only (never by the oracle): union by rank with the documented tie rule, no path
+    compression.  It tells the generator which elements are roots and how deep an element sits before any read happened."""
+
+    def __init__(self, n):
+        self.p = list(range(n))
+        self.rk = [0] * n
+
+    def root(self, x):
+        while self.p[x] != x:
+            x = self.p[x]
+        return x
+
+    def depth(self, x):
+        d = 0
+        while self.p[x] != x:
+            x = self.p[x]
+            d += 1
+        return d
+
+    def roots(self):
+        return [v for v in range(len(self.p)) if self.p[v] == v]
+
+    def union(self, x, y):
+        rx, ry = self.root(x), self.root(y)
+        if rx == ry:
+            return
+        if self.rk[rx] < self.rk[ry]:
+            rx, ry = ry, rx
+        self.p[ry] = rx
+        if self.rk[rx] == self.rk[ry]:
+            self.rk[rx] += 1
+
+
+def _reads_after_build(rng, n, sh):
+    """First read (of a random kind) at a deepest element, probes that its class is still whole, then reads at further deep
+    elements (also repeated), further unions of arbitrary elements, final components."""
+    depth = [sh.depth(v) for v in range(n)]
+    tie = [rng.random() for _ in range(n)]
+    deep = sorted(range(n), key=lambda v: (-depth[v], tie[v]))
+    x = deep[0]
+    root = sh.root(x)
+    members = [v for v in range(n) if sh.root(v) == root]
+    other = rng.randrange(n)
+    kind = rng.randrange(8)
+    ops = []
+    if kind <= 1:
+        ops.append(("find", x))
+    elif kind == 2:
+        ops.append(("connected", x, root))
+    elif kind == 3:
+        ops.append(("connected", other, x))
+    elif kind == 4:
+        ops.append(("comps",))
+    elif kind == 5:
+        ops.append(("sizes",))
+    elif kind == 6:
+        ops.append(("union", x, rng.choice(members)))  # union inside one class: False, but both finds compress
+    else:
+        ops.append(("union", other, x))
+    for _ in range(rng.randint(2, 6)):
+        ops.append(("connected", rng.choice(members), rng.choice(members)))
+    ops.append(rng.choice([("comps",), ("sizes",), ("count",), ("find", x)]))
+    for _ in range(rng.randint(3, 12)):
+        r = rng.random()
+        y = deep[min(len(deep) - 1, int(rng.expovariate(0.4)))]
+        if r < 0.3:
+            ops.append(("find", y))
+            if rng.random() < 0.3:
+                ops.append(("find", y))
+        elif r < 0.55:
+            ops.append(("connected", y, rng.randrange(n)))
+            if rng.random() < 0.2:
+                ops.append(ops[-1])
+        elif r < 0.8:
+            ops.append(("union", y, rng.randrange(n)) if rng.random() < 0.5 else ("union", rng.randrange(n), y))
+        elif r < 0.9:
+            ops.append(("count",))
+        else:
+            ops.append(("sizes",))
+    ops.append(("comps",))
+    return ops, max(depth)
+
+
+def gen_uf_balanced(rng, n):
+    """Blocks of equal size merged pairwise, round after round, always through the two block roots."""
+    sh = _Shadow(n)
+    perm = list(range(n))
+    if rng.random() < 0.6:
+        rng.shuffle(perm)
+    flip = rng.choice(["never", "always", "random"])
+    groups = [[v] for v in perm]
+    stop = rng.choice([None, None, None, 4, 5])
+    ops, rnd = [], 0
+    while len(groups) > 1 and (stop is None or rnd < stop):
+        nxt = []
+        for i in range(0, len(groups) - 1, 2):
+            a, b = sh.root(groups[i][0]), sh.root(groups[i + 1][0])
+            if flip == "always" or (flip == "random" and rng.random() < 0.5):
+                a, b = b, a
+            ops.append(("union", a, b))
+            sh.union(a, b)
+            nxt.append(groups[i] + groups[i + 1])
+        if len(groups) % 2:
+            nxt.append(groups[-1])
+        groups, rnd = nxt, rnd + 1
+    tail, h = _reads_after_build(rng, n, sh)
+    return n, ops + tail, h
+
+
+def gen_uf_deep(rng, n):
+    """Depth-maximising: unite two ROOTS of equal (preferably the highest possible) rank until few components are left."""
+    sh = _Shadow(n)
+    ops = []
+    target = rng.choice([1, 1, 2, 3])
+    while True:
+        roots = sh.roots()
+        if len(roots) <= target:
+            break
+        by_rank = {}
+        for r in roots:
+            by_rank.setdefault(sh.rk[r], []).append(r)
+        eq = sorted(k for k, l in by_rank.items() if len(l) >= 2)
+        if eq:
+            k = eq[-1] if rng.random() < 0.5 else rng.choice(eq)
+            a, b = rng.sample(by_rank[k], 2)
+        else:
+            a, b = rng.sample(roots, 2)
+        ops.append(("union", a, b))
+        sh.union(a, b)
+    tail, h = _reads_after_build(rng, n, sh)
+    return n, ops + tail, h
+
+
+CHAIN_STYLES = ["up", "up_rev", "down", "down_rev", "star", "star_rev", "shuffled"]
+
+
+def gen_uf_chain(rng, n, style=None):
+    """n-1 unions along a path (or a star) in one of several orientations / orders; reads only at the end."""
+    style = style or rng.choice(CHAIN_STYLES)
+    if style == "up":
+        e = [(i, i + 1) for i in range(n - 1)]
+    elif style == "up_rev":
+        e = [(i + 1, i) for i in range(n - 1)]
+    elif style == "down":
+        e = [(i, i - 1) for i in range(n - 1, 0, -1)]
+    elif style == "down_rev":
+        e = [(i - 1, i) for i in range(n - 1, 0, -1)]
+    elif style == "star":
+        e = [(0, i) for i in range(1, n)]
+    elif style == "star_rev":
+        e = [(i, 0) for i in range(1, n)]
+    else:
+        e = [(i, i + 1) if rng.random() < 0.5 else (i + 1, i) for i in range(n - 1)]
+        rng.shuffle(e)
+    if e and rng.random() < 0.3:
+        del e[rng.randrange(len(e))]  # two components
+    ops = [("union", a, b) for a, b in e]
+    ops += [("find", n - 1), ("find", 0), ("find", n // 2), ("connected", 0, n - 1), ("count",), ("sizes",), ("find", n - 1),
+            ("connected", n - 1, n // 3), ("comps",)]
+    return n, ops, style
+
+
+def gen_uf_any(rng, big=True):
+    r = rng.random()
+    if r < 0.5:
+        return gen_uf(rng, big)
+    if r < 0.7:
+        return gen_uf_balanced(rng, rng.choice([16, 32, 64, 128]))[:2]
+    if r < 0.95:
+        return gen_uf_deep(rng, rng.randint(9, 130))[:2]
+    return gen_uf_chain(rng, rng.choice([300, 1025, 2000]))[:2]
+
+
+# ================================================================ FenwickTree generators
 def gen_fw(rng, big=False):
     n = rng.choice([1, 2, 3, 4, 5, 7, 8, 9, 16] + ([31, 64] if big else []))
     vals = [rng.randint(-9, 9) for _ in range(n)]
@@ -51,14 +248,189 @@ def gen_fw(rng, big=False):
         else:
             a, b = sorted((rng.randrange(n), rng.randrange(n)))
             ops.append(("range", a, b))
-    return mode, vals, ops
+    return mode, vals, ops, "exact"
 
 
-# ---------------------------------------------------------------- implementation runs
+FW_SIZES = [1, 2, 3, 4, 8, 17, 64, 65]
+EXACT_CAP = 2 ** 53  # sum of |initial values| + |deltas| of one history stays <= this: every partial sum is an exact int and float
+_BIG = [2 ** 31, 2 ** 31 - 1, 2 ** 32 + 1, 10 ** 9, 10 ** 12, 10 ** 13, 2 ** 44, 2 ** 44, 2 ** 44 + 1, 3 * 2 ** 40, 10 ** 15, 2 ** 50,
+        2 ** 52, 2 ** 52 + 1, 2 ** 53 - 1, 2 ** 53]
+
+
+def _small(rng):
+    return rng.choice([0, 0, 1, 1, -1, 2, 3, -7, 5]) if rng.random() < 0.6 else rng.randint(-20, 20)
+
+
+def _bigv(rng):
+    v = rng.choice(_BIG) + rng.choice([0, 0, 0, 1, -1, rng.randint(-1000, 1000)])
+    return -v if rng.random() < 0.35 else v
+
+
+def _idx(rng, n):
+    r = rng.random()
+    return 0 if r < 0.2 else n - 1 if r < 0.4 else rng.randrange(n)
+
+
+def _fw_history(rng, n, vals, budget, mode, p_bigdelta=0.12):
+    """Ops over exact integer data (the caller converts types afterwards); keeps sum of magnitudes within `budget`."""
+    a = list(vals)
+    m = rng.randint(4, min(2 * n + 8, 48))
+    ops = []
+    pending_srcmut = mode == "values" and rng.random() < 0.6
+    for t in range(m):
+        r = rng.random()
+        if r < 0.3:
+            i = _idx(rng, n)
+            q = rng.random()
+            if q < 0.2:
+                d = 0
+            elif q < 0.2 + p_bigdelta:
+                d = _bigv(rng)
+            elif q < 0.45:
+                d = -a[i]  # the element becomes exactly 0
+            else:
+                d = _small(rng)
+            if abs(d) > budget:
+                d = 0
+            budget -= abs(d)
+            a[i] += d
+            ops.append(("update", i, d))
+            continue
+        if r < 0.5:
+            q = ("prefix", _idx(rng, n))
+        elif r < 0.7:
+            l = _idx(rng, n)
+            q = ("range", l, l)
+        elif r < 0.78:
+            q = ("range", 0, n - 1)
+        else:
+            l, h = sorted((_idx(rng, n), _idx(rng, n)))
+            q = ("range", l, h)
+        ops.append(q)
+        if rng.random() < 0.15:
+            ops.append(q)  # the same query again: same answer
+        if mode == "values" and rng.random() < 0.1:
+            ops.append(("srccheck",))
+        if pending_srcmut and t >= m // 2:
+            # the caller reuses / overwrites the list it constructed the tree from: answers must not move
+            pending_srcmut = False
+            ops.append(("srccheck",))
+            for _ in range(rng.randint(1, 3)):
+                ops.append(("srcmut", rng.randrange(n), rng.choice([0, 1, -1, 999, 2 ** 44])))
+            ops.append(("range", 0, n - 1))
+            ops.append(("prefix", _idx(rng, n)))
+    if n <= 17 and rng.random() < 0.5:
+        ops += [("range", l, l) for l in range(n)]  # every single element
+    return ops
+
+
+def gen_fw_mag(rng, n=None, typ=None, mode=None):
+    """Exact integers / integer-valued floats / one power-of-two scale of them, far from the comfort zone."""
+    n = n or rng.choice(FW_SIZES)
+    typ = typ or rng.choice(["int", "int", "float", "mixed", "dyadic"])
+    mode = mode or rng.choice(["values", "values", "size", "tuple"])
+    layout = rng.choice(["front", "front", "anywhere", "cancel", "many", "none"])
+    budget = EXACT_CAP
+    bigs = {}
+    if layout == "front":
+        bigs[0] = _bigv(rng)
+        if n > 2 and rng.random() < 0.3:
+            bigs[1] = _bigv(rng)
+    elif layout == "anywhere":
+        for _ in range(rng.randint(1, 3)):
+            bigs[rng.randrange(n)] = _bigv(rng)
+    elif layout == "cancel" and n >= 2:
+        i, j = sorted(rng.sample(range(n), 2))
+        v = _bigv(rng)
+        bigs[i], bigs[j] = v, -v + rng.choice([0, 0, 1, -1])
+    elif layout == "many":
+        for i in range(n):
+            if rng.random() < 0.3:
+                bigs[i] = _bigv(rng)
+    vals = [0] * n
+    for i in sorted(bigs):
+        if abs(bigs[i]) <= budget:
+            vals[i] = bigs[i]
+            budget -= abs(bigs[i])
+    zero_heavy = rng.random() < 0.25
+    for i in range(n):
+        if i not in bigs:
+            v = 0 if (zero_heavy and rng.random() < 0.7) else _small(rng)
+            if abs(v) <= budget // 2:  # leave room for the deltas
+                vals[i] = v
+                budget -= abs(v)
+    ops = _fw_history(rng, n, vals, budget, mode)
+    e = rng.choice([-40, -20, -10, -3, -1, 1, 7, 30, 40])
+
+    def conv(v):
+        if typ == "int":
+            return v
+        if typ == "float":
+            return float(v)
+        if typ == "mixed":
+            return float(v) if rng.random() < 0.5 else v
+        return math.ldexp(float(v), e)
+
+    vals = [conv(v) for v in vals]
+    ops = [(o[0], o[1], conv(o[2])) if o[0] in ("update", "srcmut") else o for o in ops]
+    return mode, vals, ops, "exact"
+
+
+def gen_fw_iter(rng, n=None):
+    """Initial values handed over as a range object or a one-shot generator (judged only if the constructor accepts it)."""
+    n = n or rng.choice(FW_SIZES)
+    start, step = rng.choice([0, 1, -5, 2 ** 44, -(2 ** 31)]), rng.choice([1, 1, 2, -1, -3, 2 ** 20])
+    mode = rng.choice(["range", "range", "gen"])
+    vals = list(range(start, start + step * n, step))
+    budget = EXACT_CAP - sum(abs(v) for v in vals)
+    ops = _fw_history(rng, n, vals, max(budget, 0), mode)
+    if mode == "range":
+        return f"range:{start}:{start + step * n}:{step}", vals, ops, "exact"
+    return "gen", vals, ops, "exact"
+
+
+_TOL_POOL = [0.1, 0.2, 0.3, -0.3, -0.1, 1e-7, 1e-9, 1e-12, 1e6, -1e6, 1e12, 1 / 3, 2.5, 0.0, 1.0, 2 ** 53 + 1, -(2 ** 53 + 1), 10 ** 18, 2 ** 60,
+             1e-3, 123456.789]
+
+
+def gen_fw_tol(rng, n=None):
+    """Data whose float sums are NOT exact; only the a-priori rounding bound of float summation is demanded."""
+    n = n or rng.choice(FW_SIZES)
+    mode = rng.choice(["values", "size"])
+    vals = [rng.choice(_TOL_POOL) if rng.random() < 0.8 else round(rng.uniform(-1000, 1000), 3) for _ in range(n)]
+    ops = []
+    for _ in range(rng.randint(4, min(2 * n + 8, 40))):
+        r = rng.random()
+        if r < 0.3:
+            i = _idx(rng, n)
+            ops.append(("update", i, rng.choice(_TOL_POOL + [0, 0.0]) if rng.random() < 0.8 else -vals[i]))
+        elif r < 0.5:
+            ops.append(("prefix", _idx(rng, n)))
+        elif r < 0.75:
+            l = _idx(rng, n)
+            ops.append(("range", l, l))
+        else:
+            l, h = sorted((_idx(rng, n), _idx(rng, n)))
+            ops.append(("range", l, h))
+    return mode, vals, ops, "tol"
+
+
+def gen_fw_any(rng, big=True):
+    r = rng.random()
+    if r < 0.4:
+        return gen_fw(rng, big)
+    if r < 0.85:
+        return gen_fw_mag(rng)
+    if r < 0.92:
+        return gen_fw_iter(rng)
+    return gen_fw_tol(rng)
+
+
+# ================================================================ implementation runs
 def canon_num(x):
     if isinstance(x, bool) or x is None:
         return x
-    if isinstance(x, float) and x == int(x):
+    if isinstance(x, float) and math.isfinite(x) and x == int(x):
         return int(x)
     return x
 
@@ -67,12 +439,15 @@ def run_uf_impl(n, ops):
     from solvor.utils.data_structures import UnionFind
 
     uf = UnionFind(n)
+    other = UnionFind(n)  # a second live instance receiving different operations: instances share nothing
     outs = []
     for o in ops:
         if o[0] == "union":
             outs.append(("b", bool(uf.union(o[1], o[2]))))
+            other.union(o[2], (o[1] + 1) % n)
         elif o[0] == "find":
             outs.append(("n", int(uf.find(o[1]))))
+            other.find(n - 1 - o[1])
         elif o[0] == "connected":
             outs.append(("b", bool(uf.connected(o[1], o[2]))))
         elif o[0] == "count":
@@ -84,97 +459,245 @@ def run_uf_impl(n, ops):
     return outs
 
 
+def _same_list(a, b):
+    return len(a) == len(b) and all(type(x) is type(y) and x == y for x, y in zip(a, b))
+
+
 def run_fw_impl(mode, vals, ops):
     from solvor.utils.data_structures import FenwickTree
 
+    n = len(vals)
+    src = expect_src = None
     if mode == "size":
-        ft = FenwickTree(len(vals))
+        ft = FenwickTree(n)
         for i, v in enumerate(vals):
             ft.update(i, v)
+        other = FenwickTree(n)
     else:
-        ft = FenwickTree(list(vals))
+        if mode == "values":
+            src = list(vals)
+            expect_src = list(vals)
+            arg = src
+        elif mode == "tuple":
+            arg = tuple(vals)
+        elif mode.startswith("range:"):
+            a, b, s = (int(t) for t in mode.split(":")[1:])
+            arg = range(a, b, s)
+            assert list(arg) == list(vals)
+        elif mode == "gen":
+            arg = (v for v in vals)
+        else:
+            raise ValueError(mode)
+        try:
+            ft = FenwickTree(arg)
+        except (TypeError, AttributeError) as e:
+            if mode == "values":
+                raise
+            return [("na", type(e).__name__)]  # documented parameter type is list: other iterables are judged only if accepted
+        other = FenwickTree(list(vals))
     outs = []
     for o in ops:
         if o[0] == "update":
             r = ft.update(o[1], o[2])
             outs.append(("u", r))
+            other.update(n - 1 - o[1], o[2] + 1)
         elif o[0] == "prefix":
             outs.append(("z", canon_num(ft.prefix(o[1]))))
-        else:
+        elif o[0] == "range":
             outs.append(("z", canon_num(ft.range_sum(o[1], o[2]))))
+            other.range_sum(0, n - 1)
+        elif o[0] == "srccheck":
+            outs.append(("b", src is None or _same_list(src, expect_src)))
+        elif o[0] == "srcmut":
+            if src is not None:
+                src[o[1]] = o[2]
+                expect_src[o[1]] = o[2]
+            outs.append(("u", None))
+        else:
+            raise ValueError(o)
     return outs
 
 
-# ---------------------------------------------------------------- independent reference (the property itself)
+# ================================================================ independent reference (the property itself)
 def oracle_uf(n, ops, outs):
-    """Naive label array.  Returns None if outs obey the property, else a description."""
+    """Naive label array (+ member lists).  Returns None if outs obey the property, else (op index, description)."""
+    if len(outs) != len(ops):
+        return (0, f"{len(outs)} outputs for {len(ops)} operations")
     lab = list(range(n))
+    members = {i: [i] for i in range(n)}
     last_find = {}
     for k, (o, r) in enumerate(zip(ops, outs)):
-        classes = {}
-        for i, l in enumerate(lab):
-            classes.setdefault(l, []).append(i)
+        r = tuple(r)
         if o[0] == "union":
-            same = lab[o[1]] == lab[o[2]]
+            a, b = lab[o[1]], lab[o[2]]
+            same = a == b
             if r != ("b", not same):
-                return f"op {k} {o}: returned {r}, expected {not same}"
+                return (k, f"op {k} {o}: returned {r}, expected {not same}")
             if not same:
-                a, b = lab[o[1]], lab[o[2]]
-                lab = [a if l == b else l for l in lab]
+                if len(members[a]) < len(members[b]):
+                    a, b = b, a
+                for v in members[b]:
+                    lab[v] = a
+                members[a] = members[a] + members.pop(b)
             last_find = {}
         elif o[0] == "connected":
             if r != ("b", lab[o[1]] == lab[o[2]]):
-                return f"op {k} {o}: returned {r}"
+                return (k, f"op {k} {o}: returned {r}, expected {lab[o[1]] == lab[o[2]]}")
         elif o[0] == "find":
             if r[0] != "n" or not (0 <= r[1] < n) or lab[r[1]] != lab[o[1]]:
-                return f"op {k} {o}: root {r} not in the class of the argument"
+                return (k, f"op {k} {o}: root {r} not in the class of the argument")
             # find x = find y <=> same class (between unions the representative of a class is stable)
             c = lab[o[1]]
             if c in last_find and last_find[c] != r[1]:
-                return f"op {k} {o}: representative changed from {last_find[c]} to {r[1]} without a union"
+                return (k, f"op {k} {o}: representative changed from {last_find[c]} to {r[1]} without a union")
             last_find[c] = r[1]
         elif o[0] == "count":
-            if r != ("n", len(classes)):
-                return f"op {k} count: returned {r}, expected {len(classes)}"
+            if r != ("n", len(members)):
+                return (k, f"op {k} count: returned {r}, expected {len(members)}")
         elif o[0] == "sizes":
-            if r[0] != "l" or sorted(r[1]) != sorted(len(c) for c in classes.values()):
-                return f"op {k} sizes: returned {r}"
+            if r[0] != "l" or sorted(r[1]) != sorted(len(c) for c in members.values()):
+                return (k, f"op {k} sizes: returned {_brief(r)}, expected {_brief(sorted(len(c) for c in members.values()))}")
         else:
-            if r[0] != "s" or sorted(r[1]) != sorted(classes.values()):
-                return f"op {k} comps: returned {r}"
+            want = sorted(sorted(c) for c in members.values())
+            if r[0] != "s" or sorted(r[1]) != want:
+                return (k, f"op {k} comps: returned {_brief(r)}, expected {_brief(want)}")
     return None
 
 
-def oracle_fw(mode, vals, ops, outs):
-    a = list(vals)
+def _brief(x, lim=300):
+    s = str(x)
+    return s if len(s) <= lim else s[:lim] + "..."
+
+
+def _is_num(x):
+    return isinstance(x, (int, float)) and not isinstance(x, bool) and (not isinstance(x, float) or math.isfinite(x))
+
+
+def oracle_fw(mode, vals, ops, outs, judge="exact"):
+    """Plain array of exact rationals that received the same initial values and updates.  judge='exact': answers must be
+    equal as numbers.  judge='tol' (inexact float data only): |answer - exact| <= 4 (m + 64) 2^-53 * (sum of magnitudes fed in),
+    m = number of values fed in so far - a bound every float summation of these numbers obeys whatever the order."""
+    if outs and tuple(outs[0])[0] == "na":
+        return None
+    if len(outs) != len(ops):
+        return (0, f"{len(outs)} outputs for {len(ops)} operations")
+    a = [Fraction(v) for v in vals]
+    mass = sum(abs(v) for v in a)
+    fed = len(a)
     for k, (o, r) in enumerate(zip(ops, outs)):
+        r = tuple(r)
         if o[0] == "update":
-            a[o[1]] += o[2]
+            a[o[1]] += Fraction(o[2])
+            mass += abs(Fraction(o[2]))
+            fed += 1
             if r != ("u", None):
-                return f"op {k} update returned {r}"
-        elif o[0] == "prefix":
-            if r != ("z", sum(a[: o[1] + 1])):
-                return f"op {k} {o}: returned {r}, expected {sum(a[:o[1]+1])}"
+                return (k, f"op {k} update returned {r}")
+        elif o[0] == "srcmut":
+            pass
+        elif o[0] == "srccheck":
+            if r != ("b", True):
+                return (k, f"op {k}: the list passed to the constructor was modified by the tree (constructor or update)")
         else:
-            if r != ("z", sum(a[o[1]: o[2] + 1])):
-                return f"op {k} {o}: returned {r}, expected {sum(a[o[1]:o[2]+1])}"
+            want = sum(a[: o[1] + 1]) if o[0] == "prefix" else sum(a[o[1]: o[2] + 1])
+            if r[0] != "z" or not _is_num(r[1]):
+                return (k, f"op {k} {o}: returned {r}, expected {_show(want)}")
+            got = Fraction(r[1])
+            ok = got == want if judge == "exact" else abs(got - want) <= Fraction(4 * (fed + 64), 2 ** 53) * mass
+            if not ok:
+                return (k, f"op {k} {o}: returned {r[1]!r}, expected {_show(want)}" + ("" if judge == "exact" else " (beyond the float summation bound)"))
     return None
 
 
-# ---------------------------------------------------------------- Coq terms
+def _show(fr):
+    return str(fr.numerator) if fr.denominator == 1 else f"{float(fr)!r} (= {fr})"
+
+
+# ---------------------------------------------------------------- shrinking (drop operations while the reference still objects)
+def _uf_verdict(n, ops):
+    res = guarded(run_uf_impl, n, ops, timeout=5)
+    outs = outcome_to_outs(res, len(ops))
+    bad = oracle_uf(n, ops, outs) if res[0] == "ok" else (len(ops) - 1, f"implementation {res[0]}: {res[1:]}")
+    return outs, bad
+
+
+def _fw_verdict(mode, vals, ops, judge):
+    res = guarded(run_fw_impl, mode, vals, ops, timeout=5)
+    outs = outcome_to_outs(res, len(ops))
+    bad = oracle_fw(mode, vals, ops, outs, judge) if res[0] == "ok" else (len(ops) - 1, f"implementation {res[0]}: {res[1:]}")
+    return outs, bad
+
+
+def _shrink_ops(ops, verdict, bad, limit=400, seconds=15.0):
+    """Truncate after the first failing operation, then drop single operations (last to first) while it still fails."""
+    import time
+
+    ops = list(ops[: bad[0] + 1])
+    runs = 0
+    i = len(ops) - 2
+    t0 = time.time()
+    if "implementation hang" in bad[1]:
+        return ops
+    while i >= 0 and runs < limit and time.time() - t0 < seconds:
+        cand = ops[:i] + ops[i + 1:]
+        runs += 1
+        b = verdict(cand)[1]
+        if b:
+            ops = list(cand[: b[0] + 1])
+            i = min(i, len(ops) - 1)
+        i -= 1
+    return ops
+
+
+def shrink_uf(n, ops, bad):
+    """-> (ops, outs, bad) of a smaller failing history; the original one if the failure does not reproduce on the smaller
+    history (e.g. a RecursionError at the edge of the interpreter's stack limit)."""
+    small = _shrink_ops(ops, lambda c: _uf_verdict(n, c), bad)
+    outs, b = _uf_verdict(n, small)
+    if b:
+        return small, outs, b
+    return list(ops), _uf_verdict(n, ops)[0], bad
+
+
+def shrink_fw(mode, vals, ops, judge, bad):
+    orig = (list(vals), list(ops), bad)
+    ops = _shrink_ops(ops, lambda c: _fw_verdict(mode, vals, c, judge), bad)
+    if not _fw_verdict(mode, vals, ops, judge)[1]:
+        return orig[0], orig[1], _fw_verdict(mode, orig[0], orig[1], judge)[0], bad
+    # values: zero out entries one at a time (keeps indices meaningful); then cut the tail of the array if unused
+    if not mode.startswith("range:"):
+        vals = list(vals)
+        for i in range(len(vals)):
+            if vals[i] != 0 and len(vals) <= 130:
+                cand = vals[:i] + [type(vals[i])(0)] + vals[i + 1:]
+                if _fw_verdict(mode, cand, ops, judge)[1]:
+                    vals = cand
+        used = 1 + max([max(o[1:3]) if o[0] == "range" else o[1] for o in ops if len(o) > 1] + [0])
+        while len(vals) > used and _fw_verdict(mode, vals[:-1], ops, judge)[1]:
+            vals = vals[:-1]
+    outs, bad = _fw_verdict(mode, vals, ops, judge)
+    return vals, ops, outs, bad
+
+
+# ================================================================ Coq terms
 def uf_op(o):
     return {"union": lambda: f"OUnion {o[1]} {o[2]}", "find": lambda: f"OFind {o[1]}", "connected": lambda: f"OConnected {o[1]} {o[2]}",
             "count": lambda: "OCount", "sizes": lambda: "OSizes", "comps": lambda: "OComps"}[o[0]]()
 
 
+def _natlit(v):
+    return isinstance(v, int) and 0 <= v <= 5000
+
+
 def uf_out(r):
+    """Implementation output as a UF.out term; anything that is not a value of the model's type (a negative count of a broken
+    implementation, an exception marker) becomes RFail, which no in-range model run produces."""
     if r[0] == "b":
         return f"RBool {cbool(r[1])}"
-    if r[0] == "n":
+    if r[0] == "n" and _natlit(r[1]):
         return f"RNat {r[1]}"
-    if r[0] == "l":
+    if r[0] == "l" and all(_natlit(v) for v in r[1]):
         return f"RNats {clist(r[1])}"
-    if r[0] == "s":
+    if r[0] == "s" and all(_natlit(v) for c in r[1] for v in c):
         return f"RSets {clist(r[1], lambda c: clist(c))}"
     return "RFail"
 
@@ -195,6 +718,23 @@ def fw_out(r):
     return "RFail"
 
 
+def _integral(v):
+    return isinstance(v, int) or (isinstance(v, float) and math.isfinite(v) and v == int(v))
+
+
+def fw_coq_case(mode, vals, ops, outs, judge):
+    """Coq term of a Fenwick history, or None when the history is outside the model's domain (Z): non-integral or inexact data,
+    more than COQ_MAX_N elements, constructor argument not accepted.  Integer-valued floats are mapped to the same integer
+    (sound here because judge == 'exact' histories keep every partial sum exactly representable).  The caller-side list
+    operations (srccheck / srcmut) are not operations of the tree and are left out."""
+    if judge != "exact" or len(vals) > COQ_MAX_N or (outs and outs[0][0] in ("na", "fail")):
+        return None
+    if not all(_integral(v) for v in vals) or not all(_integral(o[2]) for o in ops if o[0] == "update"):
+        return None
+    keep = [(o, r) for o, r in zip(ops, outs) if o[0] in ("update", "prefix", "range")]
+    return f"({clist([int(v) for v in vals], cz)}, ({clist([o for o, _ in keep], fw_op)}, {clist([r for _, r in keep], fw_out)}))"
+
+
 def outcome_to_outs(res, nops):
     """guarded() result -> list of outs; exceptions / hangs become a single failure marker."""
     if res[0] == "ok":
@@ -202,89 +742,174 @@ def outcome_to_outs(res, nops):
     return [("fail", res[0], res[1] if len(res) > 1 else "")] * max(1, nops)
 
 
+# ================================================================ the check
 def run(ctx: Ctx):
-    ctx.rule = ("random operation histories (sizes 1..12 quick, ..64 thorough; unions incl. self/repeated, interleaved reads); "
+    ctx.rule = ("operation histories: random (sizes 1..12 quick, ..64 thorough; unions incl. self/repeated, interleaved reads); UnionFind also "
+                "balanced / rank-maximising merges through roots (n 16..130, height 4..7 before the first read, reads at the deepest elements, "
+                "further unions) and chains/stars of 257..2000 elements; FenwickTree also exact ints / integer-valued floats / one-scale dyadics at "
+                "2^31..2^53 mixed with 0, +-1 (total magnitude <= 2^53), sizes 1,2,3,17,64,65,1000, index corners, delta 0, repeated queries, "
+                "list/tuple/range/generator constructor arguments, caller-side mutation of the source list, inexact floats under a summation bound; "
                 "non-trivial = UF history with >=2 effective unions and a read after them / Fenwick history with an update followed by a query; "
                 "distinct = canonical JSON of the history")
     ctx.proof_step(["C20"])
+    thorough = ctx.tier == "thorough"
     n_uf = ctx.budget(300, 6000)
     n_fw = ctx.budget(300, 6000)
-    big = ctx.tier == "thorough"
+    rng = ctx.rng
 
-    uf_cases, fw_cases = [], []
-    corpus = _corpus()
-    for kind, payload in corpus:
-        (uf_cases if kind == "uf" else fw_cases).append(payload)
-    uf_cases += [gen_uf(ctx.rng, big) for _ in range(n_uf)]
-    fw_cases += [gen_fw(ctx.rng, big) for _ in range(n_fw)]
+    uf_cases, fw_cases = [], []  # (family, n, ops) / (family, mode, vals, ops, judge)
+    for kind, payload in _corpus():
+        if kind == "uf":
+            uf_cases.append(("corpus",) + payload)
+        else:
+            fw_cases.append(("corpus",) + payload)
+    uf_cases += [("random",) + gen_uf(rng, thorough) for _ in range(n_uf)]
+    fw_cases += [("random",) + gen_fw(rng, thorough)[:4] for _ in range(n_fw)]
+
+    # ---- S: structured UnionFind families
+    for n in (16, 32, 64, 128):
+        for _ in range(ctx.budget(6, 60)):
+            n_, ops, h = gen_uf_balanced(rng, n)
+            ctx.count("uf_shadow_height_before_first_read", h)
+            uf_cases.append(("balanced", n_, ops))
+    for _ in range(ctx.budget(40, 600)):
+        n = rng.choice([16, 17, 31, 32, 33, 64, 65, 127, 128]) if rng.random() < 0.4 else rng.randint(9, 130)
+        n_, ops, h = gen_uf_deep(rng, n)
+        ctx.count("uf_shadow_height_before_first_read", h)
+        uf_cases.append(("deep", n_, ops))
+    for n, style in ([(2000, st) for st in CHAIN_STYLES] + [(rng.choice([257, 801, 1025, 1500]), st) for st in CHAIN_STYLES]
+                     + [(rng.choice([300, 801, 1500, 2000]), None) for _ in range(ctx.budget(2, 30))]):
+        n_, ops, style = gen_uf_chain(rng, n, style)
+        ctx.count("uf_chain_style", style)
+        uf_cases.append(("chain", n_, ops))
+
+    # ---- M O A I: structured Fenwick families
+    fw_cases += [("corner", "values", [2 ** 44, 1], [("range", 1, 1), ("range", 0, 1), ("prefix", 0)], "exact"),
+                 ("corner", "size", [2 ** 53 - 1, 1], [("prefix", 1), ("range", 1, 1), ("update", 1, 0), ("range", 1, 1)], "exact"),
+                 ("corner", "values", [-(2 ** 53)], [("prefix", 0), ("range", 0, 0), ("update", 0, 0), ("prefix", 0)], "exact"),
+                 ("corner", "values", [0.0, 0, -0.0], [("range", 1, 2), ("update", 2, 0), ("range", 2, 2), ("srccheck",)], "exact"),
+                 ("corner", "values", [float(2 ** 52), -1.0, 1.0, -float(2 ** 52)], [("range", 0, 3), ("range", 1, 2), ("range", 1, 1), ("prefix", 2)], "exact")]
+    for n in (1, 2, 3, 17, 64, 65):
+        for typ in ("int", "int", "float", "mixed", "dyadic"):
+            for _ in range(ctx.budget(2, 20)):
+                fw_cases.append((f"mag-{typ}",) + gen_fw_mag(rng, n, typ))
+    for _ in range(ctx.budget(60, 1500)):
+        c = gen_fw_mag(rng)
+        fw_cases.append(("mag-any",) + c)
+    for mode in ("values", "size", "tuple"):
+        for typ in ["int", rng.choice(["float", "mixed", "dyadic"])] + [rng.choice(["int", "float", "mixed", "dyadic"]) for _ in range(ctx.budget(0, 6))]:
+            fw_cases.append((f"mag-{typ}",) + gen_fw_mag(rng, 1000, typ, mode))
+    for _ in range(ctx.budget(16, 200)):
+        fw_cases.append(("iter",) + gen_fw_iter(rng))
+    for _ in range(ctx.budget(40, 600)):
+        fw_cases.append(("tol",) + gen_fw_tol(rng))
+    fw_cases.append(("tol",) + gen_fw_tol(rng, 1000))
 
     # ---- UnionFind
     coq_cases, metas = [], []
-    for n, ops in uf_cases:
-        res = guarded(run_uf_impl, n, ops, timeout=5)
-        outs = outcome_to_outs(res, len(ops))
+    reported = 0
+    for fam, n, ops in uf_cases:
+        outs, bad = _uf_verdict(n, ops)
         ctx.evaluations += 1
-        ctx.count("uf_n", n)
+        ctx.count("uf_family", fam)
+        ctx.count("uf_n", n if n <= 12 else "13-40" if n <= 40 else "41-130" if n <= 130 else ">130")
         for o in ops:
             ctx.count("uf_ops", o[0])
-        bad = oracle_uf(n, ops, outs) if res[0] == "ok" else f"implementation {res[0]}: {res[1:]}"
         if bad:
-            ctx.violation(f"UnionFind history violates the partition reference: {bad}",
-                          {"kind": "uf", "n": n, "ops": ops, "impl_outs": outs})
+            if reported < 8:
+                s_ops, s_outs, s_bad = shrink_uf(n, ops, bad)
+                reported += 1
+            else:
+                s_ops, s_outs, s_bad = ops, outs, bad
+            ctx.violation(f"UnionFind history violates the partition reference: {s_bad[1]}",
+                          {"kind": "uf", "family": fam, "n": n, "ops": s_ops, "impl_outs": s_outs})
         eff = sum(1 for o, r in zip(ops, outs) if o[0] == "union" and r == ("b", True))
         if eff >= 2 and any(o[0] != "union" for o in ops[2:]):
             ctx.nontriv(("uf", n, tuple(ops)))
         ctx.sample({"kind": "uf", "n": n, "ops": ops[:8], "outs": outs[:8]}, 2)
-        coq_cases.append(f"({cnat(n)}, ({clist(ops, uf_op)}, {clist(outs, uf_out)}))")
-        metas.append((n, ops, outs))
+        if n <= COQ_MAX_N:
+            coq_cases.append(f"({cnat(n)}, ({clist(ops, uf_op)}, {clist(outs, uf_out)}))")
+            metas.append((n, ops, outs))
+    ctx.count("uf_coq_cases", "in-model", len(coq_cases))
+    ctx.count("uf_coq_cases", "python-reference-only (n > 128)", len(uf_cases) - len(coq_cases))
     failing = ctx.coq_check("uf", "From SV Require Import C20.UF.", "nat * (list UF.op * list UF.out)",
                             "fun c => list_eqb UF.out_eqb (UF.run_from (fst c) (fst (snd c))) (snd (snd c))", coq_cases)
     uf_disagree = [metas[i] for i in failing]
 
     # ---- Fenwick
     coq_cases, metas = [], []
-    for mode, vals, ops in fw_cases:
-        res = guarded(run_fw_impl, mode, vals, ops, timeout=5)
-        outs = outcome_to_outs(res, len(ops))
+    reported = 0
+    for fam, mode, vals, ops, judge in fw_cases:
+        outs, bad = _fw_verdict(mode, vals, ops, judge)
         ctx.evaluations += 1
-        ctx.count("fw_n", len(vals))
-        ctx.count("fw_mode", mode)
-        bad = oracle_fw(mode, vals, ops, outs) if res[0] == "ok" else f"implementation {res[0]}: {res[1:]}"
+        n = len(vals)
+        ctx.count("fw_family", fam)
+        ctx.count("fw_n", n if n <= 17 else "18-65" if n <= 65 else ">65")
+        ctx.count("fw_mode", mode.split(":")[0])
+        if mode not in ("values", "size"):
+            ctx.count("fw_ctor_accepts_" + mode.split(":")[0], not (outs and outs[0][0] == "na"))
+        if judge == "exact" and any(isinstance(v, (int, float)) and abs(v) >= 2 ** 31 for v in vals):
+            ctx.count("fw_magnitude", ">=2^31 present")
         if bad:
-            ctx.violation(f"FenwickTree history violates the plain-array reference: {bad}",
-                          {"kind": "fw", "mode": mode, "vals": vals, "ops": ops, "impl_outs": outs})
+            if reported < 8:
+                s_vals, s_ops, s_outs, s_bad = shrink_fw(mode, vals, ops, judge, bad)
+                reported += 1
+            else:
+                s_vals, s_ops, s_outs, s_bad = vals, ops, outs, bad
+            ctx.violation(f"FenwickTree history violates the plain-array reference: {s_bad[1]}",
+                          {"kind": "fw", "family": fam, "mode": mode, "judge": judge, "vals": s_vals, "ops": s_ops, "impl_outs": s_outs})
         seen_upd = False
         for o in ops:
             if o[0] == "update":
                 seen_upd = True
-            elif seen_upd:
+            elif seen_upd and o[0] in ("prefix", "range"):
                 ctx.nontriv(("fw", mode, tuple(vals), tuple(ops)))
                 break
-        ctx.sample({"kind": "fw", "mode": mode, "vals": vals, "ops": ops[:8], "outs": outs[:8]}, 4)
-        coq_cases.append(f"({clist(vals, cz)}, ({clist(ops, fw_op)}, {clist(outs, fw_out)}))")
-        metas.append((mode, vals, ops, outs))
+        ctx.sample({"kind": "fw", "mode": mode, "vals": vals[:8], "ops": ops[:8], "outs": outs[:8]}, 4)
+        term = fw_coq_case(mode, vals, ops, outs, judge)
+        if term is not None:
+            coq_cases.append(term)
+            metas.append((mode, vals, ops, outs))
+    ctx.count("fw_coq_cases", "in-model", len(coq_cases))
+    ctx.count("fw_coq_cases", "python-reference-only (non-integral / inexact / n > 128 / not accepted)", len(fw_cases) - len(coq_cases))
     failing = ctx.coq_check("fw", "From SV Require Import C20.Fenwick.", "list Z * (list Fenwick.op * list Fenwick.out)",
                             "fun c => list_eqb Fenwick.out_eqb (Fenwick.run_from (fst c) (fst (snd c))) (snd (snd c))", coq_cases)
     fw_disagree = [metas[i] for i in failing]
+
+    ctx.notes += [
+        "Fenwick model is over Z; the implementation accumulates in Python floats (prefix starts from 0.0, FenwickTree(n) stores 0.0): "
+        "the exact families keep sum|initial values| + sum|deltas| <= 2^53 (times one power of two for the dyadic family), so every partial "
+        "sum in any order is exactly representable and float addition coincides with exact addition; the reference is an array of exact "
+        "rationals and answers are compared as numbers (7.0 == 7).",
+        "Integer-valued float inputs (2.0**44, 1.0) of those exact histories are mapped to the same integers for the Coq correspondence; "
+        "dyadic (non-integral), inexact ('tol') and n > 128 histories are judged by the Python reference only.",
+        "Beyond 2^53 the implementation is a float structure: FenwickTree([2**53 + 1]).prefix(0) returns 9007199254740992.0; such data and "
+        "non-dyadic floats (0.1, 1e-7 next to 1e6) are only required to stay within 4(m+64)2^-53 * (sum of magnitudes fed in) of the exact "
+        "sum (family 'tol'), which any float summation order satisfies; the property's 'exactly' is read as exact on exactly summable data.",
+        "Constructor: documented parameter type is list; tuple / range / generator arguments are judged only when the constructor accepts "
+        "them without TypeError/AttributeError (histogram fw_ctor_accepts_*).  The caller's list is compared (values and types) after "
+        "construction/updates and then overwritten by the caller; the tree's answers must not change.",
+        "UnionFind trees deeper than 3 need >= 16 elements merged through roots; the generators use a naive shadow forest (union by rank, "
+        "no compression) only to pick roots / deepest elements, the judge is the label array.  UnionFind histories over more than 128 "
+        "elements (chains up to 2000) are judged by the label array only.",
+    ]
 
     # ---- model and implementation disagree but the reference found nothing: search harder, then report
     if (uf_disagree or fw_disagree or ctx.broken) and not ctx.violations:
         found = False
         for _ in range(20000):
-            n, ops = gen_uf(ctx.rng, True)
-            res = guarded(run_uf_impl, n, ops, timeout=5)
-            outs = outcome_to_outs(res, len(ops))
-            bad = oracle_uf(n, ops, outs) if res[0] == "ok" else f"implementation {res[0]}"
+            n, ops = gen_uf_any(rng, True)
+            outs, bad = _uf_verdict(n, ops)
             if bad:
-                ctx.violation(f"UnionFind: {bad}", {"kind": "uf", "n": n, "ops": ops, "impl_outs": outs})
+                ops, outs, bad = shrink_uf(n, ops, bad)
+                ctx.violation(f"UnionFind: {bad[1]}", {"kind": "uf", "n": n, "ops": ops, "impl_outs": outs})
                 found = True
                 break
-            mode, vals, ops = gen_fw(ctx.rng, True)
-            res = guarded(run_fw_impl, mode, vals, ops, timeout=5)
-            outs = outcome_to_outs(res, len(ops))
-            bad = oracle_fw(mode, vals, ops, outs) if res[0] == "ok" else f"implementation {res[0]}"
+            mode, vals, ops, judge = gen_fw_any(rng, True)
+            outs, bad = _fw_verdict(mode, vals, ops, judge)
             if bad:
-                ctx.violation(f"FenwickTree: {bad}", {"kind": "fw", "mode": mode, "vals": vals, "ops": ops, "impl_outs": outs})
+                vals, ops, outs, bad = shrink_fw(mode, vals, ops, judge, bad)
+                ctx.violation(f"FenwickTree: {bad[1]}", {"kind": "fw", "mode": mode, "judge": judge, "vals": vals, "ops": ops, "impl_outs": outs})
                 found = True
                 break
         if not found:
@@ -293,12 +918,20 @@ def run(ctx: Ctx):
                 ctx.violation("correspondence lemma uf: model SV.C20.UF and implementation differ (observable: per-op outputs)",
                               {"kind": "uf", "n": m[0], "ops": m[1], "impl_outs": m[2], "model_outs": model, "lemma": "Cases/C20/uf_*.v corr"}, no_input=True)
             for m in fw_disagree[:1]:
-                model = ctx.coq_eval("fw_show", "From SV Require Import C20.Fenwick.", f"Fenwick.run_from {clist(m[1], cz)} {clist(m[2], fw_op)}")
+                keep = [o for o in m[2] if o[0] in ("update", "prefix", "range")]
+                model = ctx.coq_eval("fw_show", "From SV Require Import C20.Fenwick.", f"Fenwick.run_from {clist([int(v) for v in m[1]], cz)} {clist(keep, fw_op)}")
                 ctx.violation("correspondence lemma fw: model SV.C20.Fenwick and implementation differ",
                               {"kind": "fw", "mode": m[0], "vals": m[1], "ops": m[2], "impl_outs": m[3], "model_outs": model, "lemma": "Cases/C20/fw_*.v corr"}, no_input=True)
 
 
+def _ops_from_json(ops):
+    return [tuple(x) for x in ops]
+
+
 def _corpus():
+    """corpus/C20/*.json: {"kind": "uf", "n": N, "ops": [["union", x, y], ["find", x], ["connected", x, y], ["count"], ["sizes"], ["comps"]]}
+    or {"kind": "fw", "mode": "values"|"size"|"tuple", "judge": "exact"|"tol", "vals": [...], "ops": [["update", i, d], ["prefix", i],
+    ["range", l, r], ["srccheck"], ["srcmut", i, v]]}; other keys (note, origin) are ignored."""
     import json
     from harness.core import VERIF
 
@@ -308,24 +941,22 @@ def _corpus():
         for f in sorted(d.glob("*.json")):
             o = json.loads(f.read_text())
             if o["kind"] == "uf":
-                out.append(("uf", (o["n"], [tuple(x) for x in o["ops"]])))
+                out.append(("uf", (o["n"], _ops_from_json(o["ops"]))))
             else:
-                out.append(("fw", (o.get("mode", "values"), o["vals"], [tuple(x) for x in o["ops"]])))
+                out.append(("fw", (o.get("mode", "values"), o["vals"], _ops_from_json(o["ops"]), o.get("judge", "exact"))))
     return out
 
 
 def replay(obj):
     if obj.get("kind") == "uf":
-        ops = [tuple(x) for x in obj["ops"]]
-        outs = run_uf_impl(obj["n"], ops)
-        bad = oracle_uf(obj["n"], ops, outs)
+        ops = _ops_from_json(obj["ops"])
+        outs, bad = _uf_verdict(obj["n"], ops)
     elif obj.get("kind") == "fw":
-        ops = [tuple(x) for x in obj["ops"]]
-        outs = run_fw_impl(obj.get("mode", "values"), obj["vals"], ops)
-        bad = oracle_fw(obj.get("mode", "values"), obj["vals"], ops, outs)
+        ops = _ops_from_json(obj["ops"])
+        outs, bad = _fw_verdict(obj.get("mode", "values"), obj["vals"], ops, obj.get("judge", "exact"))
     else:
         print("replay names an unchecked obligation:", obj.get("unchecked") or obj.get("what"))
         return 1
-    print("implementation outputs:", outs)
-    print("reference verdict:", bad or "ok")
+    print("implementation outputs:", _brief(outs, 2000))
+    print("reference verdict:", bad[1] if bad else "ok")
     return 1 if bad else 0
